@@ -123,6 +123,57 @@ def cover_boundary(rng):
     return out
 
 
+def tight_table_requests(rng, wd):
+    """One group of requests per fast-path table entry of the running library (every implementation, every chain):
+       operator and formats of the entry, solid source / solid mask where the entry asks for one (1x1 repeating
+       images), images whose rows are contiguous and end exactly at the end of their storage (widths for which
+       width x bpp is a whole number of words), the request covering the image up to its last pixel - in guard mode
+       at the upper and at the lower end: a routine that reads or writes a word where the format has a byte or
+       three touches the PROT_NONE page"""
+    import json
+    import dispatch
+    exe, _ = vf.build_driver("drv_dispatch", "plain", cflags=["-pthread"])
+    keys = set()
+    for ci, dis in enumerate(CONFIGS):
+        empty = os.path.join(wd, "empty.script")
+        open(empty, "w").write("")
+        tr = os.path.join(wd, "tables%d.ndjson" % ci)
+        dispatch.run_config(exe, empty, tr, dis)
+        for line in open(tr):
+            if line.startswith('{"e":"Tables"'):
+                for imp in json.loads(line)["imps"]:
+                    for e in imp:
+                        if e["op"] < 0x3f:
+                            keys.add((e["op"], tuple(e["sf"]), tuple(e["mf"]), tuple(e["df"])))
+    code = lambda hl: (hl[0] << 16) | hl[1]
+    solid = 1 << 16
+    known = set(F.values())
+    ident = [FX1, 0, 0, 0, FX1, 0, 0, 0, FX1]
+    out = []
+    for (op, sf, mf, df) in sorted(keys):
+        sfc, mfc, dfc = code(sf), code(mf), code(df)
+        if dfc not in known or (sfc != solid and sfc not in known) or (mfc not in (0, solid) and mfc not in known):
+            continue
+        for (dw, dh) in ((4, 2), (8, 1), (12, 3), (32, 2), (64, 1)):
+            for mode in (1, 2):
+                if sfc == solid:
+                    sfmt, sw, sh, srep = F["a8r8g8b8"], 1, 1, 1
+                else:
+                    sfmt, sw, sh, srep = sfc, dw, dh, 0
+                if mfc == solid:
+                    mfmt, mw, mh = F["a8"], 1, 1
+                elif mfc:
+                    mfmt, mw, mh = mfc, dw, dh
+                else:
+                    mfmt, mw, mh = 0, 1, 1
+                for neg in (0, 1):
+                    f = [mode | 4, op, sfmt, sw, sh, neg, srep, 3] + ident + [mfmt, mw, mh, dfc, dw, dh, neg,
+                                                                            0, 0, 0, 0, 0, 0, dw, dh,
+                                                                            rng.randrange(1, 2 ** 31)]
+                    out.append("C %d %s" % (len(f), " ".join(str(int(v)) for v in f)))
+    return out
+
+
 def gen(rng, n):
     out = []
     fm = [F[k] for k in ("a8r8g8b8", "x8r8g8b8", "r5g6b5", "a8", "a1", "r8g8b8", "a4r4g4b4", "x2r10g10b10", "r3g3b2")]
@@ -235,6 +286,9 @@ def run(prop, args):
     edge = edge_aligned_trapezoids(rng)
     reqs += edge if not quick else rng.sample(edge, 700)
     chk.extra["edge_aligned_trapezoid_requests"] = len(edge)
+    tight = tight_table_requests(rng, wd)
+    reqs += tight if (not quick or len(tight) <= 1500) else rng.sample(tight, 1500)
+    chk.extra["tight_fast_path_table_requests"] = len(tight)
     chk.sample({"request_script_lines": reqs[:2]})
     configs = CONFIGS[:3] if quick else CONFIGS
     traces = []
